@@ -267,4 +267,18 @@ def explore(ctx):
     cov['live_terminal_cases'] = live['coverage']['evaluations']
     cov['evaluations'] += live['coverage']['evaluations']
     cov['rule'] += '; live-terminal schedules in which the table shrinks to empty: the last frame is `No data`'
-    return {'coverage': cov, 'failures': failures}
+    # KF-45 is a history on a terminal: replayed here
+    known_lines = []
+    wide = json.dumps({'a': 1, 'b': 2, 'c': 'x' * 70}).encode() + b'\n'
+    o = ptydrive.run_pty('* | json', [(b'{"b":1}\n{"a":2,"b":1}\n', 0.1), (wide, 0.1), (b'{"a":3,"b":4}\n', 0.1)], 24, 60)
+    text = o['out'].decode('utf8', 'replace').replace('\r', '')
+    rows_ = [l for l in text.split('\n') if l.strip()]
+    cov['evaluations'] += 1
+    if len(rows_) == 4 and rows_[1].index('[b=') < rows_[1].index('[a=') and rows_[3].find('[a=') < rows_[3].find('[b='):
+        if 'record_column_order_restarts_on_overflow' in ctx.get('known_classes', ()):
+            known_lines.append('KF-45 record output on a terminal: after a row wider than the terminal the column order starts again from that row '
+                               '[history: * | json on 24x60; row 2 prints %r, row 4 prints %r]' % (rows_[1].strip(), rows_[3].strip()))
+        else:
+            failures.append({'kind': 'spec', 'what': 'record output: the column order changed after an over-wide row: %r then %r' % (rows_[1].strip(), rows_[3].strip()),
+                             'payload': {'query': '* | json', 'terminal': [24, 60], 'rows': rows_}})
+    return {'coverage': cov, 'failures': failures, 'known_lines': known_lines}
